@@ -55,7 +55,25 @@ func isEOL(c byte) bool { return c == '\r' || c == '\n' }
 //     '<' or '>';
 //   - a whitespace run without a line break is preserved exactly;
 //   - every other character is kept intact and in order.
+// ExpandRaw replaces the marker runes U+F780..U+F7FF by the single bytes 0x80..0xFF. Template text that
+// is not valid UTF-8 (a file in a legacy 8-bit encoding) is carried in this form, which survives JSON.
+func ExpandRaw(s string) string {
+	if !strings.ContainsRune(s, 0xF7) && !strings.Contains(s, "\xef\x9e") && !strings.Contains(s, "\xef\x9f") {
+		return s
+	}
+	var b strings.Builder
+	for _, r := range s {
+		if r >= 0xF780 && r <= 0xF7FF {
+			b.WriteByte(byte(r - 0xF700))
+		} else {
+			b.WriteRune(r)
+		}
+	}
+	return b.String()
+}
+
 func NormalizeText(s string) string {
+	s = ExpandRaw(s)
 	var b strings.Builder
 	i := 0
 	for i < len(s) {
